@@ -35,7 +35,7 @@ From SF Require Import Unsized.Proofs.Layout Unsized.Proofs.Observe Unsized.Proo
   Unsized.Proofs.NotifyInside Unsized.Proofs.Resize Unsized.Proofs.GenOps Unsized.Proofs.History.
 From SF Require Import Unsized.Run Unsized.Proofs.Init Unsized.Proofs.History2 Unsized.Proofs.ExecTie.
 From SF Require Import Unsized.Proofs.ExecTie2 Unsized.Proofs.Keyed Unsized.Proofs.NotifyInside2 Unsized.Proofs.SetData.
-From SF Require Import Unsized.Proofs.History3 Unsized.Proofs.History4 Unsized.Proofs.Enums.
+From SF Require Import Unsized.Proofs.History3 Unsized.Proofs.History4 Unsized.Proofs.Enums Unsized.Proofs.InitKinds.
 
 (* one operation: same success, and the new machine state represents the owned model's new value *)
 Theorem C01_flat_step_refines :
@@ -369,6 +369,30 @@ Theorem C01_dispatcher_tie_switch :
     mstepZ ovf t s top (ZSwitch pi d) = Ok r ->
     forall fuel, (length pi < fuel)%nat -> exec fuel ovf t s top [] (enc_path t v pi ++ [60; d]) = Ok r.
 Proof. exact exec_tie_switch. Qed.
+
+(* NON-DEFAULT initializers (InitKinds.v): elements and values created by an initializer other than DefaultInit - the
+   arrays of all-ones items of the harness family, `[1;1;1]` for RemainingBytes - through UnsizedList::insert, set_from_init
+   and UnsizedMap::insert (new key and existing key).  `ival it kind` is the value the initializer creates (None when it
+   fails: then the statement does not apply, see C06_failing_initializer_refuted).  Histories mixing these with every
+   operation of C01_run_refines_with_switches refine the owned model; the dispatcher on the op codes does the same. *)
+Theorem C01_initializer_writes_its_value :
+  forall it kind dv, ival it kind = Some dv -> ones_ok it kind = true ->
+    init_bytes it kind = Ok (encode it dv) /\ init_size it kind = zlen (encode it dv) /\ wf it dv = true.
+Proof. exact ival_init. Qed.
+
+Theorem C01_run_refines_with_initializers :
+  forall ovf t h v s top pi0 v' obss,
+    RepF pi0 t v s top -> m_refuse s <> 1 -> orunK (m_cap s) t v h = Some (v', obss) ->
+    exists s' top' pi', mrunK ovf t s top h = Ok (s', top', obss) /\ RepF pi' t v' s' top' /\ m_cap s' = m_cap s.
+Proof. exact krun_refines. Qed.
+
+Theorem C01_dispatcher_refines_initializers :
+  forall ovf t v s top o v' obs,
+    RepF [] t v s top -> m_refuse s <> 1 -> is_new o -> ostepK (m_cap s) t v o = Some (v', obs) ->
+    forall fuel, (length (kfocus o) < fuel)%nat ->
+    exists s' top' pi', exec fuel ovf t s top [] (enc_kop t v o) = Ok (s', top', obs) /\
+                        RepF pi' t v' s' top' /\ m_cap s' = m_cap s /\ m_refuse s' = m_refuse s.
+Proof. exact exec_k_refines. Qed.
 
 Example C01_nonvacuous_enums :
   (* an enum inside a list of unsized elements inside a struct: switch to a data variant, insert into the list inside its
